@@ -12,22 +12,22 @@ def wet (cfg : Cfg) : Cfg := { cfg with dryRun := false }
 
 /-- With --dry-run the destination is returned unchanged — for every other flag
     (incl. --delete, thresholds, link modes, -X, -H, compare modes) and every pair of trees. -/
-theorem dry_run_noop (cfg : Cfg) (scan : List SEntry) (dst : Map DNode) (n : Nat)
-    (h : cfg.dryRun = true) : (run cfg scan dst n).dst = dst := by
-  unfold run
+theorem dry_run_noop (cfg : Cfg) (flt : Faults) (scan : List SEntry) (dst : Map DNode) (n : Nat)
+    (h : cfg.dryRun = true) : (runF cfg flt scan dst n).dst = dst := by
+  unfold runF
   simp only
   split
   · rfl
-  · simp only [foldl_execTask_dry_w cfg h, initExec]
+  · simp only [foldl_execTask_dry_w cfg flt h, initExec]
 
 /-- … and no task fails in a dry run, so a dry run that is not refused exits 0. -/
-theorem dry_run_no_errors (cfg : Cfg) (scan : List SEntry) (dst : Map DNode) (n : Nat)
-    (h : cfg.dryRun = true) : (run cfg scan dst n).errors = [] := by
-  unfold run
+theorem dry_run_no_errors (cfg : Cfg) (flt : Faults) (scan : List SEntry) (dst : Map DNode) (n : Nat)
+    (h : cfg.dryRun = true) : (runF cfg flt scan dst n).errors = [] := by
+  unfold runF
   simp only
   split
   · rfl
-  · simp only [foldl_execTask_dry_errors cfg h, initExec, List.reverse_nil]
+  · simp only [foldl_execTask_dry_errors cfg flt h, initExec, List.reverse_nil]
 
 /-- Planning does not look at the dry-run flag: the task list is identical. -/
 theorem dry_run_same_plan (cfg : Cfg) (scan : List SEntry) (dst : Map DNode) :
@@ -35,36 +35,36 @@ theorem dry_run_same_plan (cfg : Cfg) (scan : List SEntry) (dst : Map DNode) :
   (plan_dry cfg true scan dst).trans (plan_dry cfg false scan dst).symm
 
 /-- The guard decides identically with and without --dry-run. -/
-theorem dry_run_same_refusal (cfg : Cfg) (scan : List SEntry) (dst : Map DNode) (n : Nat) :
-    (run (dry cfg) scan dst n).refused = (run (wet cfg) scan dst n).refused := by
+theorem dry_run_same_refusal (cfg : Cfg) (flt : Faults) (scan : List SEntry) (dst : Map DNode) (n : Nat) :
+    (runF (dry cfg) flt scan dst n).refused = (runF (wet cfg) flt scan dst n).refused := by
   have hg : ∀ d c, guardRefuses (dry cfg) d c = guardRefuses (wet cfg) d c := fun _ _ => rfl
-  unfold run
+  unfold runF
   simp only [dry_run_same_plan, hg]
   split <;> rfl
 
 /-- The actions a dry run reports are exactly the actions of the real run on the same trees,
     in the same order, whenever no task of the real run fails. -/
-theorem dry_run_plan_eq (cfg : Cfg) (scan : List SEntry) (dst : Map DNode) (n : Nat)
-    (hok : (run (wet cfg) scan dst n).errors = []) :
-    (run (dry cfg) scan dst n).events = (run (wet cfg) scan dst n).events := by
+theorem dry_run_plan_eq (cfg : Cfg) (flt : Faults) (scan : List SEntry) (dst : Map DNode) (n : Nat)
+    (hok : (runF (wet cfg) flt scan dst n).errors = []) :
+    (runF (dry cfg) flt scan dst n).events = (runF (wet cfg) flt scan dst n).events := by
   have hg : ∀ d c, guardRefuses (dry cfg) d c = guardRefuses (wet cfg) d c := fun _ _ => rfl
-  unfold run at hok ⊢
+  unfold runF at hok ⊢
   simp only [dry_run_same_plan, hg] at hok ⊢
   by_cases hr : guardRefuses (wet cfg) (List.filter (fun x => x.act == Act.delete) (plan (wet cfg) scan dst)).length
       (List.length dst) = true
   · simp only [hr, ↓reduceIte]
   · simp only [hr, Bool.false_eq_true, ↓reduceIte, List.reverse_eq_nil_iff] at hok ⊢
-    rw [foldl_execTask_dry_events (dry cfg) rfl]
-    rw [foldl_execTask_events_of_no_errors (wet cfg) _ _ (by rw [hok]; rfl)]
+    rw [foldl_execTask_dry_events (dry cfg) flt rfl]
+    rw [foldl_execTask_events_of_no_errors (wet cfg) flt _ _ (by rw [hok]; rfl)]
 
 /-- … and the counters agree as well. -/
-theorem dry_run_counters_eq (cfg : Cfg) (scan : List SEntry) (dst : Map DNode) (n : Nat)
-    (hok : (run (wet cfg) scan dst n).errors = []) :
-    countAct .create (run (dry cfg) scan dst n).events = countAct .create (run (wet cfg) scan dst n).events ∧
-    countAct .update (run (dry cfg) scan dst n).events = countAct .update (run (wet cfg) scan dst n).events ∧
-    countAct .delete (run (dry cfg) scan dst n).events = countAct .delete (run (wet cfg) scan dst n).events ∧
-    countAct .skip (run (dry cfg) scan dst n).events = countAct .skip (run (wet cfg) scan dst n).events := by
-  rw [dry_run_plan_eq cfg scan dst n hok]; exact ⟨rfl, rfl, rfl, rfl⟩
+theorem dry_run_counters_eq (cfg : Cfg) (flt : Faults) (scan : List SEntry) (dst : Map DNode) (n : Nat)
+    (hok : (runF (wet cfg) flt scan dst n).errors = []) :
+    countAct .create (runF (dry cfg) flt scan dst n).events = countAct .create (runF (wet cfg) flt scan dst n).events ∧
+    countAct .update (runF (dry cfg) flt scan dst n).events = countAct .update (runF (wet cfg) flt scan dst n).events ∧
+    countAct .delete (runF (dry cfg) flt scan dst n).events = countAct .delete (runF (wet cfg) flt scan dst n).events ∧
+    countAct .skip (runF (dry cfg) flt scan dst n).events = countAct .skip (runF (wet cfg) flt scan dst n).events := by
+  rw [dry_run_plan_eq cfg flt scan dst n hok]; exact ⟨rfl, rfl, rfl, rfl⟩
 
 /-! ### non-vacuity -/
 
@@ -86,7 +86,7 @@ def exScan : List SEntry :=
   [{ rel := ["a"], kind := .file { content := 1, size := 3, mtime := 5, xattrs := [], ino := 1 } 1, size := 3, excluded := false }]
 def exDst : Map DNode := [(["z"], .dir)]
 
-example : (run exCfg exScan exDst 10).dst = exDst := dry_run_noop exCfg exScan exDst 10 rfl
+example : (run exCfg exScan exDst 10).dst = exDst := dry_run_noop exCfg noFaults exScan exDst 10 rfl
 example : (plan exCfg exScan exDst).length = 2 := by decide
 
 end SyModel.Props.C08
